@@ -326,7 +326,7 @@ theorem search_finds (req types : Bytes) (f : TFile) (post : Tape) (hf : f.wf)
     ∀ (pre : List TFile),
       (∀ g ∈ pre, g.wf ∧ nameMatches req types (padName g.name) g.ftype = false) →
       ∀ (s : St) (fuel : Nat), pre.length < fuel → s.ahead = encode pre ++ (fileRecs f ++ post) →
-        search true fuel s req types =
+        search true true fuel s req types =
           (pre.map skippedMsg ++ [foundMsg f],
            afterOpen s (s.done ++ encode pre ++ [hdrRec f]) f post, .ok (hdrOf f)) := by
   intro pre
@@ -565,5 +565,56 @@ theorem annot_nomatch (req types : Bytes) (a : List File) : ∀ (last : Nat × N
       exact ⟨annot1_wf last f (hfs f (by simp)) hl, by rw [this.1, this.2.1]; exact hnm f (by simp)⟩
     · exact ih _ (fun x hx => hfs x (by simp [hx])) (newLast_ok last f (hfs f (by simp)) hl)
         (fun x hx => hnm x (by simp [hx])) g hg
+
+theorem openRead_end (s : St) (h : s.ahead = []) : openRead s = .error endOfTape := by
+  simp [openRead, h, scanHeader]
+
+/-- a search that no file on the rest of the tape answers: Skipped for each of them, Device Timeout,
+    and (repaired code) the tape is rewound AND the stream is closed -/
+theorem search_fails (req types : Bytes) :
+    ∀ (pre : List TFile),
+      (∀ g ∈ pre, g.wf ∧ nameMatches req types (padName g.name) g.ftype = false) →
+      ∀ (s : St) (fuel : Nat), pre.length < fuel → s.ahead = encode pre →
+        ∃ s', search true true fuel s req types = (pre.map skippedMsg, s', .error Gen.E.device_timeout) ∧
+          s'.isOpen = false ∧ s'.done = [] ∧ s'.ahead = s.done ++ s.ahead ∧ s'.last = s.last := by
+  intro pre
+  induction pre with
+  | nil =>
+    intro _ s fuel hfuel hs
+    obtain ⟨k, rfl⟩ : ∃ k, fuel = k + 1 := ⟨fuel - 1, by simp at hfuel; omega⟩
+    simp only [encode] at hs
+    refine ⟨{ s with ahead := s.done ++ s.ahead, done := [], buf := [], complete := false, writing := false,
+                     isOpen := false }, ?_, rfl, rfl, rfl, rfl⟩
+    unfold search
+    rw [openRead_end s hs]
+    simp [endOfTape]
+  | cons g pre ih =>
+    intro hpre s fuel hfuel hs
+    obtain ⟨k, rfl⟩ : ∃ k, fuel = k + 1 := ⟨fuel - 1, by simp at hfuel; omega⟩
+    have hg := hpre g (by simp)
+    have hs' : s.ahead = fileRecs g ++ encode pre := by rw [hs]; simp [encode]
+    obtain ⟨s', h1, h2, h3, h4, h5⟩ := ih (fun x hx => hpre x (by simp [hx]))
+      { afterOpen s (s.done ++ [hdrRec g]) g (encode pre) with
+        buf := [], complete := true, done := s.done ++ [hdrRec g] ++ bodyRecs g, ahead := encode pre }
+      k (by simp at hfuel; omega) rfl
+    refine ⟨s', ?_, h2, h3, ?_, ?_⟩
+    · unfold search
+      rw [openRead_file s g _ hg.1 hs']
+      have hnm : nameMatches req types (hdrOf g).trunk (afterOpen s (s.done ++ [hdrRec g]) g (encode pre)).ftype
+          = false := by simpa [hdrOf, afterOpen] using hg.2
+      simp only [hnm, Bool.false_eq_true, if_false, if_true]
+      rw [read_body (afterOpen s (s.done ++ [hdrRec g]) g (encode pre)) g (encode pre) hg.1 rfl rfl rfl rfl rfl]
+      simp only []
+      have : ({ afterOpen s (s.done ++ [hdrRec g]) g (encode pre) with
+          buf := [], complete := true,
+          done := (afterOpen s (s.done ++ [hdrRec g]) g (encode pre)).done ++ bodyRecs g,
+          ahead := encode pre } : St) =
+        { afterOpen s (s.done ++ [hdrRec g]) g (encode pre) with
+          buf := [], complete := true, done := s.done ++ [hdrRec g] ++ bodyRecs g, ahead := encode pre } := by
+        simp [afterOpen]
+      rw [this, h1]
+      simp [skippedMsg, hdrOf, afterOpen]
+    · rw [h4, hs']; simp [fileRecs, List.append_assoc]
+    · rw [h5]; simp [afterOpen]
 
 end PcbV.CassetteLemmas
